@@ -18,7 +18,7 @@ func init() {
 			"(both the disjunctive and the De Morgan form are recognised, also nested in larger conditions); a read by type that skips this on one path — the cache hit, the loose path, an iterator — hands out an object of another type; " +
 			"(pack-hit-verified) findObjectInPackfile names a pack only behind the success edge of that pack index's FindOffset for the requested hash, so the most-recently-used hint can be stale but cannot misroute; " +
 			"(reader-bounded-by-size) FSObject.Reader hands out either the cached object's reader or a reader wrapped in NewBoundedReadCloser. (may-contain-confirmed) on the edge where an index's MayContain (a first-byte bucket test) answered true only the precise lookup may follow, never the next iteration or a return; " +
-			"(alternates-miss-is-not-found) findInAlternates returns the value its workers collected with a nil error only where the found flag is true (found and fixed: a miss in two or more alternates answered (zero, nil)); (local-miss-reaches-alternates) a function that falls back to the alternates does so for both ways the loose-object directory reports a miss — the filesystem's not-exist error and, with ExclusiveAccess, ErrObjectNotFound from the cached listing (found and fixed: HasEncodedObject returned the latter at once); (read-paths-cover-alternates) lookup, size, existence, prefix search and iteration each reach the alternates (known finding: iteration does not); (id-from-exact-bytes) no ObjectID is written from an open-ended slice, so IDs are equal wherever they were read (found and fixed: MemoryIndex); (rejecting-set-scoped-to-the-read) a field set whose membership test fails a read is emptied by the function that fills it. Not decided: contents and sizes of what is read, cache coherence, delta resolution.",
+			"(alternates-miss-is-not-found) findInAlternates returns the value its workers collected with a nil error only where the found flag is true (found and fixed: a miss in two or more alternates answered (zero, nil)); (local-miss-reaches-alternates) a function that falls back to the alternates does so for both ways the loose-object directory reports a miss — the filesystem's not-exist error and, with ExclusiveAccess, ErrObjectNotFound from the cached listing (found and fixed: HasEncodedObject returned the latter at once); (read-paths-cover-alternates) lookup, size, existence, prefix search and iteration each reach the alternates (known finding: iteration does not); (cached-slice-not-written-by-callers, shared with C18) no caller of a DotGit method that hands out a window of a cached listing assigns its elements, appends through a reslice that leaves capacity (the x[:0] filter idiom), sorts it or copies into it — the window shares its backing array with the listing every other read path searches; (id-from-exact-bytes) no ObjectID is written from an open-ended slice, so IDs are equal wherever they were read (found and fixed: MemoryIndex); (rejecting-set-scoped-to-the-read) a field set whose membership test fails a read is emptied by the function that fills it. Not decided: contents and sizes of what is read, cache coherence, delta resolution.",
 		Assumptions: []string{},
 		Run:         runC11,
 	})
@@ -26,6 +26,10 @@ func init() {
 
 func runC11(c *Ctx) {
 	p := c.P
+	// the read paths share the cached listing of loose objects: a reader that rewrites the window it was handed makes the
+	// other read paths (prefix search, iteration) disagree with reads by ID (shared with C18)
+	nMut := SharedSliceNotMutatedByCallers(c, "cached-slice-not-written-by-callers", dotgitShort, "DotGit")
+	c.Check(nMut >= 2, "cached-slice-not-written-by-callers", dotgitShort+".DotGit:callers", 0, itoa(nMut)+" call sites that receive a window of a cached listing examined")
 	const r1 = "type-filter-enforced"
 	otT := p.lookupType("plumbing", "ObjectType")
 	eoT := p.lookupType("plumbing", "EncodedObject")
